@@ -128,6 +128,13 @@ Inductive cguard :=
 Definition model_create_coin : list cguard := [GIndexReject IdxDenom; GMetaRequired; GDeploy; GIndexReject IdxErc20; GInsert].
 Definition model_create_erc20 : list cguard := [GIndexReject IdxErc20; GContractAnswers; GMetaAbsent; GIndexReject IdxDenom; GSetMeta; GInsert].
 
+(** what keeps other modules out of the escrow: the EVM module account is on the bank's blocked list (app wiring,
+    [blocked Module = true] in the model) and x/tokenfactory's burn_from / mint_to refuse blocked accounts before
+    moving coins (the guards of [TfBurn] / [TfMint]) *)
+Record escrow_guards := { eg_evm_module_blocked : bool; eg_tf_burn_checks_blocked : bool; eg_tf_mint_checks_blocked : bool }.
+Definition model_escrow_guards : escrow_guards :=
+  {| eg_evm_module_blocked := blocked Module; eg_tf_burn_checks_blocked := true; eg_tf_mint_checks_blocked := true |}.
+
 (** NibiruBankKeeper: per wrapped bank method, the accounts whose balance it aligns with the in-flight
     StateDB after the base operation (parameter positions after ctx: "addr#i" / "module#i"), and whether that
     is guarded by the gas-coin test *)
